@@ -32,7 +32,9 @@ META = dict(
                "not importable in this sandbox and are out of reach).",
     rule="case = (generated def/async def signature, positional/keyword split, values, validate_params, formatter, serializer); "
          "non-trivial iff an un-annotated or Any parameter precedes an annotated one, or there is a keyword-only or dependency "
-         "parameter, or a consulted conversion fails; distinct by canonical JSON of the case",
+         "parameter, or a consulted conversion fails; distinct by canonical JSON of the case. A group case = a sequence of such "
+         "calls run in ONE driver process over same-named annotation classes built for the group (each call judged on its own); "
+         "non-trivial iff the implementation converted values for at least two different classes of one name",
     trusted_base=["model: coq/theories/Params.v (hand-written transcription of parse_params, run_task's call assembly, CPython "
                   "argument binding, kicker._prepare_message, formatter composition)",
                   "parse_obj_as (pydantic) = Section variable `conv`, instantiated per case by a table of pydantic's own answers "
@@ -167,13 +169,14 @@ def is_edge(ann, spec):
     return ann in EDGE_KEYS and "j" in spec and json.dumps(spec["j"], sort_keys=True) in EDGE_KEYS[ann]
 
 
-def gen_value(r, ann, used):
+def gen_value(r, ann, used, aimed=None):
+    aim = (aimed or {}).get(ann) or AIMED.get(ann)
     for _ in range(8):
         k = r.random()
         if ann in EDGE and k < .2:
             s = J(r.choice(EDGE[ann]))
-        elif ann in AIMED and k < .7:
-            s = AIMED[ann](r)
+        elif aim is not None and k < .7:
+            s = aim(r)
         elif k < .80:
             s = J(gen_json(r))
         elif k < .86:
@@ -194,8 +197,8 @@ def gen_value(r, ann, used):
 
 
 # --------------------------------------------------------------------------- signatures and calls
-def gen_param(r, name, kind, seen_default):
-    ann = wchoice(r, ANN_W)
+def gen_param(r, name, kind, seen_default, annpick=None):
+    ann = annpick(r) if annpick else wchoice(r, ANN_W)
     dep, default = None, False
     if r.random() < .11:
         dep = r.choice(["default", "default", "context", "annotated"])
@@ -210,32 +213,33 @@ def gen_param(r, name, kind, seen_default):
     return dict(name=name, kind=kind, ann=ann, default=default, dep=dep)
 
 
-def gen_case(r):
+def gen_case(r, annpick=None, aimed=None):
+    pick = annpick or (lambda q: wchoice(q, ANN_W))
     npos = r.choice([0, 1, 1, 2, 2, 2, 3, 3, 4])
     nkw = r.choice([0, 0, 0, 0, 1, 1, 2, 3])
     varpos, varkw = r.random() < .12, r.random() < .10
     names = r.sample(NAMES, npos + nkw + 2)
     params, seen_default = [], False
     for i in range(npos):
-        p = gen_param(r, names[i], "pos", seen_default)
+        p = gen_param(r, names[i], "pos", seen_default, annpick)
         seen_default = seen_default or p["default"] or p["dep"] in ("default", "context")
         params.append(p)
     if varpos:
-        params.append(dict(name=names[npos + nkw], kind="varpos", ann=wchoice(r, ANN_W), default=False, dep=None))
+        params.append(dict(name=names[npos + nkw], kind="varpos", ann=pick(r), default=False, dep=None))
     for i in range(nkw):
-        params.append(gen_param(r, names[npos + i], "kw", False))
+        params.append(gen_param(r, names[npos + i], "kw", False, annpick))
     if varkw:
-        params.append(dict(name=names[npos + nkw + 1], kind="varkw", ann=wchoice(r, ANN_W), default=False, dep=None))
+        params.append(dict(name=names[npos + nkw + 1], kind="varkw", ann=pick(r), default=False, dep=None))
     case = dict(params=params, ret=r.choice([None, None, "int", "str"]))
     case["async"] = r.random() < .6
     case["validate"] = r.random() < .8
     case["fmt"] = r.choice(["proxy", "proxy", "json"])
     case["ser"] = r.choice(["json", "json", "pickle"])
-    gen_call(r, case)
+    gen_call(r, case, aimed)
     return case
 
 
-def gen_call(r, case):
+def gen_call(r, case, aimed=None):
     params = case["params"]
     pos = [p for p in params if p["kind"] == "pos"]
     kws = [p for p in params if p["kind"] == "kw"]
@@ -257,18 +261,18 @@ def gen_call(r, case):
         else:
             break
     k = maxk if r.random() < .55 else r.randint(0, maxk)
-    args = [gen_value(r, p["ann"], used) for p in pos[:k]]
-    kwargs = [[p["name"], gen_value(r, "X" if p["dep"] == "context" else p["ann"], used)]
+    args = [gen_value(r, p["ann"], used, aimed) for p in pos[:k]]
+    kwargs = [[p["name"], gen_value(r, "X" if p["dep"] == "context" else p["ann"], used, aimed)]
               for p in pos[k:] + kws if sent[p["name"]]]
     r.shuffle(kwargs)
     if vp and k == len(pos):
-        args += [gen_value(r, r.choice([vp[0]["ann"]] + [q["ann"] for q in kws]), used) for _ in range(r.choice([0, 1, 2, 3]))]
+        args += [gen_value(r, r.choice([vp[0]["ann"]] + [q["ann"] for q in kws]), used, aimed) for _ in range(r.choice([0, 1, 2, 3]))]
     free = [n for n in NAMES if n not in {p["name"] for p in params}]
     if vk:
         for _ in range(r.choice([0, 1, 1, 2])):
             n = vk[0]["name"] if r.random() < .2 else r.choice(free)
             if n not in [x[0] for x in kwargs]:
-                kwargs.append([n, gen_value(r, vk[0]["ann"], used)])
+                kwargs.append([n, gen_value(r, vk[0]["ann"], used, aimed)])
     # a share of calls CPython itself must refuse (validates the model of the binding, not the property)
     if r.random() < .15:
         m = r.choice(["extra_pos", "drop", "dup", "unknown", "past_dep"])
@@ -289,7 +293,7 @@ def gen_call(r, case):
                 kwargs.append([n, gen_value(r, None, used)])
         elif m == "past_dep":
             names_kw = {x[0] for x in kwargs}
-            args = args + [gen_value(r, p["ann"], used) for p in pos[len(args):] if p["name"] not in names_kw][:2]
+            args = args + [gen_value(r, p["ann"], used, aimed) for p in pos[len(args):] if p["name"] not in names_kw][:2]
     assert len({x[0] for x in kwargs}) == len(kwargs)
     case["args"], case["kwargs"] = args, kwargs
 
@@ -361,6 +365,221 @@ def edge_cases():
                 out.append(dict(params=params, ret=None, validate=(n % 8 != 0), fmt=fmt, ser=ser, args=args,
                                 kwargs=[["b", J(v)]] if how == "kw" else [], **{"async": n % 2 == 0}))
     return out
+
+
+# --------------------------------------------------------------------------- groups over same-named types
+# One case = a SEQUENCE of calls in one driver process whose signatures are annotated with distinct classes that share a
+# name (and module / qualname / repr / str): enums, create_model / class-factory models, make_dataclass / class-factory
+# dataclasses, NewType, TypedDict, NamedTuple - bare or inside List / Optional / Dict - with different members / fields
+# (sometimes identical ones: then only the class of the received instance tells them apart).  The values are ones the
+# twins convert differently, or only one of them converts.  The property speaks about each call: every step is judged on
+# its own (oracle, model) against pydantic applied directly to the step's own class.
+TW_KINDS = ["enum_str", "enum_int", "enum_plain", "model", "model_factory", "dc", "dc_factory", "newtype", "typeddict",
+            "namedtuple"]
+TW_NAMES = {"enum": ["Status", "Kind", "Level"], "model": ["Payload", "Item"], "dc": ["Rec", "Point"],
+            "newtype": ["Ident", "Amount"], "typeddict": ["Opts"], "namedtuple": ["Pt", "Row"]}
+TW_MODULES = ["app.models", "orders", "payments", "params_driver"]
+TW_WRAPS = ["%s", "List[%s]", "Optional[%s]", "Dict[str,%s]"]
+FIELD_T = ["int", "str", "float", "bool", "List[int]", "Optional[int]"]
+FIELD_RAW = {"int": [1, 7, "12", -3, "5", 0], "str": ["ab", "", "5", "new", "1.5"], "float": [1.5, "2.5", 3, "7"],
+             "bool": [True, "yes", 0, "false"], "List[int]": [[1, "2"], [], ["7"]], "Optional[int]": [None, 4, "6"]}
+FIELD_DEFAULT = {"int": [0, 7], "str": ["", "q"], "float": [0.0, 1.5], "bool": [False, True], "Optional[int]": [None, 3]}
+
+
+def gen_fields(r, defaults):
+    names = r.sample(["ref", "x", "note", "n", "amount"], r.choice([1, 2, 2, 3]))
+    fs = [[n, r.choice(FIELD_T)] for n in names]
+    if defaults:                           # required fields first (dataclass rule), defaults on a suffix
+        k = r.randint(1 if r.random() < .8 else 0, len(fs))
+        for f in fs[k:]:
+            if f[1] in FIELD_DEFAULT:
+                f.append(r.choice(FIELD_DEFAULT[f[1]]))
+            else:
+                f[1] = "int"
+                f.append(0)
+    return fs
+
+
+def gen_twin_spec(r, kind, name, module):
+    if kind.startswith("enum"):
+        mixin = {"enum_str": "str", "enum_int": "int", "enum_plain": None}[kind]
+        pool = {"str": ["new", "shipped", "failed", "done", "open", "5"], "int": [1, 2, 3, 4, 5],
+                None: [1, 2, "new", "b", "1", 3]}[mixin]
+        n = r.choice([2, 2, 3])
+        return dict(k="enum", name=name, module=module, mixin=mixin,
+                    members=[list(x) for x in zip(r.sample(["NEW", "DONE", "FAILED", "OPEN", "X"], n), r.sample(pool, n))])
+    if kind in ("model", "model_factory", "dc", "dc_factory"):
+        return dict(k="model" if kind.startswith("model") else "dc", name=name, module=module,
+                    how="factory" if kind.endswith("factory") else "api", fields=gen_fields(r, True))
+    if kind == "newtype":
+        return dict(k="newtype", name=name, module=module, base=r.choice(["int", "str", "float", "bool", "List[int]"]))
+    if kind == "typeddict":
+        return dict(k="typeddict", name=name, module=module, fields=gen_fields(r, False), total=r.random() < .7)
+    return dict(k="namedtuple", name=name, module=module, fields=gen_fields(r, False))
+
+
+def raw_valid(r, spec, full=False):
+    """a JSON value the type built from `spec` converts (drawn from the raw forms of its members / fields)"""
+    k = spec["k"]
+    if k == "enum":
+        return r.choice(spec["members"])[1]
+    if k == "newtype":
+        return r.choice(FIELD_RAW[spec["base"]])
+    if k == "namedtuple" and r.random() < .7:
+        return [r.choice(FIELD_RAW[f[1]]) for f in spec["fields"]]
+    return {f[0]: r.choice(FIELD_RAW[f[1]]) for f in spec["fields"] if full or len(f) == 2 or r.random() < .5}
+
+
+def twin_aim(types, tn, family):
+    spec = types[tn]
+
+    def raw(r):
+        k = r.random()
+        if k < .45:
+            return raw_valid(r, spec)
+        if k < .85:
+            return raw_valid(r, types[r.choice(family)])
+        return gen_json(r)
+
+    def bare(r):
+        k = r.random()
+        if spec["k"] in ("model", "dc") and k < .18:      # an instance of the type itself, or of its twin, as the argument
+            src = tn if k < .12 else r.choice(family)
+            return {spec["k"]: src, "kw": {f: J(v) for f, v in raw_valid(r, types[src], full=True).items()}}
+        return J(raw(r))
+
+    return {tn: bare,
+            "List[%s]" % tn: lambda r: J([raw(r) for _ in range(r.choice([0, 1, 1, 2]))]),
+            "Optional[%s]" % tn: lambda r: J(None) if r.random() < .15 else bare(r),
+            "Dict[str,%s]" % tn: lambda r: J({k: raw(r) for k in r.sample(["a", "b", "k"], r.choice([0, 1, 2]))})}
+
+
+def set_conf(step, conf):
+    step["fmt"], step["ser"], step["validate"] = conf
+
+
+def gen_group(r):
+    kind = r.choice(TW_KINDS)
+    base = "enum" if kind.startswith("enum") else kind.split("_")[0]
+    name = r.choice(TW_NAMES[base])
+    module = r.choice(TW_MODULES)
+    nt = r.choice([2, 2, 2, 3])
+    types = {}
+    for i in range(nt):
+        # class reprs carry the module (twins share it, now and then not); <enum 'Status'> does not
+        m = module if r.random() < (.5 if base == "enum" else .9) else r.choice(TW_MODULES)
+        if i and r.random() < .15:                      # a re-created class: same definition, another object
+            types["T%d" % i] = dict(types["T%d" % r.randrange(i)], module=m)
+        else:
+            types["T%d" % i] = gen_twin_spec(r, kind, name, m)
+    family = sorted(types)
+    aimed = {}
+    for tn in family:
+        aimed.update(twin_aim(types, tn, family))
+    order = family[:]
+    r.shuffle(order)
+    order += [r.choice(family) for _ in range(r.choice([0, 1, 1, 2]))]
+    shared = r.random() < .5
+    conf = (r.choice(["proxy", "proxy", "json"]), r.choice(["json", "json", "pickle"]), r.random() < .9)
+    steps = []
+    for tn in order:
+        def annpick(q, tn=tn):
+            k = q.random()
+            if k < .5:
+                return wchoice(q, [("%s", 5), ("List[%s]", 2), ("Optional[%s]", 2), ("Dict[str,%s]", 1)]) % tn
+            if k < .6:
+                return q.choice(TW_WRAPS) % q.choice(family)
+            return wchoice(q, ANN_W)
+        own = {w % tn for w in TW_WRAPS}
+        for _ in range(30):                             # a step that really sends a value to a parameter annotated over tn
+            st = gen_case(r, annpick, aimed)
+            if any(p["ann"] in own for p, _ in sent_pairs(st)):
+                break
+        if shared:
+            set_conf(st, conf)
+        elif r.random() < .5:
+            st["validate"] = True
+        steps.append(st)
+    g = dict(types=types, steps=steps, shared=shared)
+    if shared:
+        g["fmt"], g["ser"], g["validate"] = conf
+    return g
+
+
+TWIN_TABLE = {
+    # kind: (spec of A, spec of B, value both convert - differently, value only A converts, value only B converts)
+    "enum_str": (dict(k="enum", name="Status", module="orders", mixin="str", members=[["NEW", "new"], ["SHIPPED", "shipped"]]),
+                 dict(k="enum", name="Status", module="payments", mixin="str", members=[["NEW", "new"], ["FAILED", "failed"]]),
+                 "new", "shipped", "failed"),
+    "enum_int": (dict(k="enum", name="Level", module="app.models", mixin="int", members=[["LO", 1], ["HI", 2]]),
+                 dict(k="enum", name="Level", module="app.models", mixin="int", members=[["LO", 1], ["MID", 2], ["HI", 3]]),
+                 2, "1", 3),
+    "enum_plain": (dict(k="enum", name="Kind", module="orders", mixin=None, members=[["A", 1], ["B", "b"]]),
+                   dict(k="enum", name="Kind", module="orders", mixin=None, members=[["A", "b"], ["C", 2]]),
+                   "b", 1, 2),
+    "model": (dict(k="model", name="Payload", module="app.models", how="api", fields=[["ref", "int"], ["note", "str", ""]]),
+              dict(k="model", name="Payload", module="app.models", how="api", fields=[["ref", "str"], ["amount", "float", 0.0]]),
+              {"ref": "12"}, {"ref": 7, "note": "n"}, {"ref": "abc", "amount": 3}),
+    "model_factory": (dict(k="model", name="Item", module="app.models", how="factory", fields=[["x", "int"]]),
+                      dict(k="model", name="Item", module="app.models", how="factory", fields=[["x", "str"], ["n", "int", 7]]),
+                      {"x": "5"}, {"x": 5}, {"x": "five"}),
+    "dc": (dict(k="dc", name="Rec", module="params_driver", how="api", fields=[["x", "int"], ["y", "List[int]"]]),
+           dict(k="dc", name="Rec", module="params_driver", how="api", fields=[["x", "str"], ["y", "List[int]"], ["z", "float", 1.0]]),
+           {"x": "1", "y": ["2"]}, {"x": 1, "y": []}, {"x": "one", "y": [], "z": "2"}),
+    "dc_factory": (dict(k="dc", name="Point", module="orders", how="factory", fields=[["x", "float"], ["n", "int", 0]]),
+                   dict(k="dc", name="Point", module="orders", how="factory", fields=[["x", "bool"]]),
+                   {"x": "1"}, {"x": "2.5", "n": "3"}, {"x": "yes"}),
+    "newtype": (dict(k="newtype", name="Ident", module="app.models", base="int"),
+                dict(k="newtype", name="Ident", module="app.models", base="str"),
+                "5", 5, "abc"),
+    "typeddict": (dict(k="typeddict", name="Opts", module="app.models", fields=[["n", "int"]], total=True),
+                  dict(k="typeddict", name="Opts", module="app.models", fields=[["n", "str"], ["x", "int"]], total=False),
+                  {"n": "5"}, {"n": 5}, {"n": "abc", "x": "1"}),
+    "namedtuple": (dict(k="namedtuple", name="Pt", module="app.models", fields=[["x", "int"], ["n", "int"]]),
+                   dict(k="namedtuple", name="Pt", module="app.models", fields=[["x", "str"], ["n", "float"]]),
+                   ["1", "2"], [1, 2], ["a", "2.5"]),
+}
+
+
+def twin_table_cases():
+    """every kind of same-named twin pair x {bare, List, Optional, Dict} x which twin is parsed first: four calls
+    (first twin / value both convert, second twin / same value, second twin / its own value, first twin / its own value);
+    positional / keyword, one shared receiver / one per call, formatter / serializer rotate"""
+    combos = [("proxy", "json"), ("json", "json"), ("proxy", "pickle")]
+    out, n = [], 0
+    for kind in TW_KINDS:
+        a, b, both, only_a, only_b = TWIN_TABLE[kind]
+        for wrap in TW_WRAPS:
+            for first in (0, 1):
+                n += 1
+                fmt, ser = combos[n % 3]
+                w = (lambda v: v) if wrap == "%s" else (lambda v: [v]) if wrap.startswith("List") else \
+                    (lambda v: v) if wrap.startswith("Optional") else (lambda v: {"k": v})
+                own = {"T0": only_a, "T1": only_b}
+                x, y = ("T0", "T1") if first == 0 else ("T1", "T0")
+                steps = []
+                for i, (tn, v) in enumerate([(x, both), (y, both), (y, own[y]), (x, own[x])]):
+                    kw = (n + i) % 2 == 0
+                    lead = (n + i) % 3 == 0
+                    params = ([dict(name="a", kind="pos", ann=None, default=False, dep=None)] if lead else []) + \
+                        [dict(name="b", kind="kw" if kw and n % 4 < 2 else "pos", ann=wrap % tn, default=(n + i) % 5 == 0, dep=None)]
+                    steps.append(dict(params=params, ret=None, validate=True, fmt=fmt, ser=ser,
+                                      args=([J("lead")] if lead else []) + ([] if kw else [J(w(v))]),
+                                      kwargs=[["b", J(w(v))]] if kw else [], **{"async": (n + i) % 2 == 0}))
+                g = dict(types={"T0": a, "T1": b}, steps=steps, shared=n % 2 == 0)
+                if g["shared"]:
+                    g["fmt"], g["ser"], g["validate"] = fmt, ser, True
+                out.append(g)
+    return out
+
+
+def is_group(case):
+    return "steps" in case
+
+
+def twin_anns(case):
+    """annotation names of a group that are built over its own types"""
+    return {w % tn for tn in case["types"] for w in TW_WRAPS}
 
 
 def vkind(cv):
@@ -647,15 +866,54 @@ def branch_counts(rep, case, o):
             rep.count("bind:" + o["pybind"][p["name"]][0])
 
 
+def twin_kind(spec):
+    return spec["k"] + ("_" + str(spec.get("mixin") or "plain") if spec["k"] == "enum" else
+                        "_factory" if spec.get("how") == "factory" else "")
+
+
+def group_counts(rep, g, o):
+    """evidence for one group of calls over same-named types; returns whether it is a non-trivial one (the
+    implementation converted values for at least two different classes of one name in this process)"""
+    rep.count("twin_group:cases")
+    rep.count("twin_group:steps", len(g["steps"]))
+    rep.count("twin_group:receiver:" + ("one_shared" if g.get("shared") else "one_per_call"))
+    rep.count("twin_group:kind:" + twin_kind(g["types"]["T0"]))
+    reprs = list(o["type_reprs"].values())
+    rep.count("twin_group:repr_of_the_classes:" + ("identical" if len(set(reprs)) == 1 else
+                                                   "some_identical" if len(set(reprs)) < len(reprs) else "distinct(modules differ)"))
+    defs = [cj(dict(sp, module=None)) for sp in g["types"].values()]
+    if len(set(defs)) < len(defs):
+        rep.count("twin_group:with_a_recreated_class(same definition, other object)")
+    own, base = twin_anns(g), {}
+    for tn in g["types"]:
+        for w in TW_WRAPS:
+            base[w % tn] = (tn, w % "T")
+    used = []
+    for st, so in zip(g["steps"], o["steps"]):
+        table = {(e[0], cj(e[1])): e[2] for e in so.get("conv", [])}
+        for tn, cv in so.get("consulted", []):
+            if tn in own:
+                if base[tn][0] not in used:
+                    used.append(base[tn][0])
+                rep.count("twin_conv:%s<-%s:%s" % (base[tn][1], cv[0], {"val": "converted", "swallowed": "refused(arrives unchanged)",
+                                                                       "raise": "raise"}.get(table.get((tn, cj(cv))), "?")))
+        for p, sp in sent_pairs(st):
+            if p["ann"] in own and (sp.get("model") or sp.get("dc")) in g["types"]:
+                rep.count("twin_group:instance_sent:" + ("of_the_annotated_class" if (sp.get("model") or sp.get("dc")) == base[p["ann"]][0]
+                                                         else "of_its_twin"))
+    rep.count("twin_group:classes_converted_for:%d" % len(used))
+    if len(used) >= 2:
+        rep.count("twin_group:first_parsed:" + used[0])
+    return len(used) >= 2
+
+
 def explore(ctx, rep, cases, label, observe_only=False):
     obs = C.run_driver(ctx, "params_driver", cases)
     lits, keep, plits, pkeep = [], [], [], []
-    for c, o in zip(cases, obs):
-        if "_crash" in o:
-            rep.case(c, False)
-            rep.fail("driver crashed (treated as a failure, never skipped)", c, observed=o["_crash"][-600:])
-            continue
-        rep.case(c, nontrivial(c, o))
+
+    def one(c, o, whole, step):
+        """one call: c, o = the call's case and observation; whole = the case to record (the group it is a step of)"""
+        sig = dict(src=o.get("src")) if step is None else dict(src=o.get("src"), step=step)
         rep.count("fmt:%s/%s" % (c["fmt"], c["ser"]))
         rep.count("fn:" + ("async" if c["async"] else "sync"))
         rep.count("scope:" + ("in" if in_scope(c) else "var_kinds(model only)"))
@@ -670,17 +928,19 @@ def explore(ctx, rep, cases, label, observe_only=False):
             if observe_only:
                 rep.count("observation:" + what[:60])
             else:
-                rep.fail(what, c, observed=got, expected=want, sig=dict(src=o.get("src")))
+                if step is not None:
+                    got = {"step": step, "function": o.get("src"), "observed": got}
+                rep.fail(what, whole, observed=got, expected=want, sig=sig)
         pl = prep_literal(c, o)
         if pl is not None:
             plits.append(pl)
-            pkeep.append(c)
+            pkeep.append(whole)
             for sp in c["args"] + [x[1] for x in c["kwargs"]]:
                 rep.count("prepare:" + ("model" if "model" in sp else "dataclass" if "dc" in sp else
                                         "dataclass_type" if "dctype" in sp else "other"))
         if o["kiq"] != "ok":
             rep.count("kiq:" + o["kiq"])
-            continue
+            return
         rep.count("outcome:" + o["outcome"])
         rep.count("python:" + ("accepts" if o["pybind"] is not None else "rejects"))
         if not in_scope(c) and o["pybind"] is not None and o["outcome"] == "invoked":
@@ -692,10 +952,23 @@ def explore(ctx, rep, cases, label, observe_only=False):
         lit = literal(c, o)
         if lit is None:
             if not observe_only:
-                rep.fail("task neither invoked nor refused with TypeError", c, observed=[o["outcome"], o.get("exc")])
-            continue
+                rep.fail("task neither invoked nor refused with TypeError", whole, observed=[o["outcome"], o.get("exc")], sig=sig)
+            return
         lits.append(lit)
-        keep.append(c)
+        keep.append(whole)
+
+    for c, o in zip(cases, obs):
+        if "_crash" in o:
+            rep.case(c, False)
+            rep.fail("driver crashed (treated as a failure, never skipped)", c, observed=o["_crash"][-600:])
+            continue
+        if is_group(c):
+            rep.case(c, group_counts(rep, c, o))
+            for i, (st, so) in enumerate(zip(c["steps"], o["steps"])):
+                one(st, so, c, i)
+        else:
+            rep.case(c, nontrivial(c, o))
+            one(c, o, c, None)
     broken = False
     if plits:
         bad, sfails, _ = C.coq_eval(ctx, label + "_prepare", COQ_HEADER, plits, PREP_BODY, shard=1000)
@@ -728,9 +1001,18 @@ def run(ctx):
     rep.extra["edge_table"] = ("%d cases: every (annotation, value) of the constructor-vs-pydantic edge grammar (%s) sent "
                                "positionally and by keyword" % (len(eg), ", ".join("%s:%d" % (a, len(EDGE[a])) for a in sorted(EDGE))))
     broken = explore(ctx, rep, eg, "edge_table") or broken
+    tw = twin_table_cases()
+    r3 = ctx.sub_rng("twins")
+    groups = [gen_group(r3) for _ in range(ctx.n(150, 4000))]
+    rep.extra["same_named_types"] = ("%d table groups (every kind of same-named twin pair: %s; x bare / List / Optional / Dict x "
+                                     "which twin is parsed first, 4 calls each) + %d random groups of 2-5 calls; one driver "
+                                     "process per group, each call judged on its own against pydantic on the call's own class"
+                                     % (len(tw), ", ".join(TW_KINDS), len(groups)))
+    broken = explore(ctx, rep, tw + groups, "same_named_types") or broken
     if (broken or any(not o["ok"] for o in rep.obligations)) and not rep.failures:
         r2 = ctx.sub_rng("search")
-        explore(ctx, rep, [gen_case(r2) for _ in range(ctx.n(10000, 100000))], "search")
+        explore(ctx, rep, [gen_case(r2) for _ in range(ctx.n(10000, 100000))] +
+                [gen_group(r2) for _ in range(ctx.n(500, 5000))], "search")
     return rep.finish()
 
 
@@ -742,6 +1024,25 @@ def replay(ctx, path):
     if "_crash" in o:
         print("driver crashed:", o["_crash"])
         return 1
+    if not is_group(c):
+        fails = replay_one(ctx, c, o, "replay")
+    else:
+        print("a sequence of %d calls in one process (%s) over the same-named types:" % (
+            len(c["steps"]), "one shared receiver" if c.get("shared") else "one receiver per call"))
+        for tn, sp in c["types"].items():
+            print("  %s = %s   repr %s" % (tn, json.dumps(sp), o["type_reprs"][tn]))
+        fails = []
+        for i, (st, so) in enumerate(zip(c["steps"], o["steps"])):
+            print("--- call %d" % i)
+            fails += replay_one(ctx, st, so, "replay%d" % i)
+    if c.get("observation"):
+        print("(observation outside the property's quantifier - not a verdict)")
+        return 0
+    print("holds" if not fails else "VIOLATED")
+    return 1 if fails else 0
+
+
+def replay_one(ctx, c, o, label):
     print("function:", o.get("src", "").strip())
     print("sent (wire):", o.get("wire"))
     print("implementation: kiq=%s outcome=%s received=%s" % (o["kiq"], o.get("outcome"), o.get("received")))
@@ -753,14 +1054,8 @@ def replay(ctx, path):
                                 "Some (run_task_n tb validate sg h args kw, C08_check_n tb validate sg h args kw o, "
                                 "consults_ok tc validate sg h args kw o) | [] => None end).\n"
                                 "Eval vm_compute in bad 0%nat cases.")
-        d = C.os.path.join(ctx.dir, "replay")
-        C.os.makedirs(d, exist_ok=True)
-        rc, out = C.coq_eval_raw(ctx, "replay", COQ_HEADER + "\nDefinition cases := [\n" + lit + "\n].\n" + body)
+        rc, out = C.coq_eval_raw(ctx, label, COQ_HEADER + "\nDefinition cases := [\n" + lit + "\n].\n" + body)
         print("model (values numbered per case; run_task_n, C08_check_n, consults_ok, mismatching indices):", " ".join(out.split())[-600:])
     for what, got, want in fails:
         print("VIOLATED:", what, "\n  observed:", json.dumps(got)[:600], "\n  expected:", json.dumps(want)[:600])
-    if c.get("observation"):
-        print("(observation outside the property's quantifier - not a verdict)")
-        return 0
-    print("holds" if not fails else "VIOLATED")
-    return 1 if fails else 0
+    return fails
